@@ -174,6 +174,10 @@ pub struct Exp {
 pub struct NameCtx {
     pub style: Option<Style>,
     pub chain: String,
+    /// compute what known finding D9 produces instead of the documented names: flatten prefixes
+    /// (field-level and tuple-variant-level) are NOT added to the chain. Only the sample-group
+    /// output of such a run is meaningful.
+    pub d9_sample_group_names: bool,
 }
 
 fn unit_name(tag: &str) -> &'static str {
@@ -223,7 +227,10 @@ fn local_name(n: &Node, style: Option<Style>, ident: &str, name_override: &Optio
     }
 }
 
-fn child_ctx(style: Option<Style>, chain: &str, prefix: &Option<Pfx>) -> String {
+fn child_ctx(style: Option<Style>, chain: &str, prefix: &Option<Pfx>, d9: bool) -> String {
+    if d9 {
+        return chain.to_string();
+    }
     match prefix {
         None => chain.to_string(),
         Some(Pfx::Exact(p)) => format!("{chain}{p}"),
@@ -231,7 +238,7 @@ fn child_ctx(style: Option<Style>, chain: &str, prefix: &Option<Pfx>) -> String 
     }
 }
 
-fn fields_expected(n: &Node, style: Option<Style>, chain: &str, fields: &[Field], out: &mut Vec<Exp>, sg: &mut Vec<(String, String)>) {
+fn fields_expected(n: &Node, style: Option<Style>, chain: &str, d9: bool, fields: &[Field], out: &mut Vec<Exp>, sg: &mut Vec<(String, String)>) {
     for f in fields {
         match &f.kind {
             FKind::Ignore => {}
@@ -291,8 +298,8 @@ fn fields_expected(n: &Node, style: Option<Style>, chain: &str, fields: &[Field]
                 });
             }
             FKind::Flatten { child, prefix } => {
-                let c = child_ctx(style, chain, prefix);
-                expected(child, &NameCtx { style, chain: c }, out, sg);
+                let c = child_ctx(style, chain, prefix, d9);
+                expected(child, &NameCtx { style, chain: c, d9_sample_group_names: d9 }, out, sg);
             }
         }
     }
@@ -302,7 +309,7 @@ fn fields_expected(n: &Node, style: Option<Style>, chain: &str, fields: &[Field]
 pub fn expected(n: &Node, ctx: &NameCtx, out: &mut Vec<Exp>, sg: &mut Vec<(String, String)>) {
     let style = n.rename_all.or(ctx.style);
     if !n.is_enum() {
-        fields_expected(n, style, &ctx.chain, &n.fields, out, sg);
+        fields_expected(n, style, &ctx.chain, ctx.d9_sample_group_names, &n.fields, out, sg);
         return;
     }
     let v = &n.variants[n.active % n.variants.len()];
@@ -334,10 +341,10 @@ pub fn expected(n: &Node, ctx: &NameCtx, out: &mut Vec<Exp>, sg: &mut Vec<(Strin
     match &v.data {
         VData::Unit => {}
         VData::Tuple { child, prefix } => {
-            let c = child_ctx(style, &ctx.chain, prefix);
-            expected(child, &NameCtx { style, chain: c }, out, sg);
+            let c = child_ctx(style, &ctx.chain, prefix, ctx.d9_sample_group_names);
+            expected(child, &NameCtx { style, chain: c, d9_sample_group_names: ctx.d9_sample_group_names }, out, sg);
         }
-        VData::Struct(fields) => fields_expected(n, style, &ctx.chain, fields, out, sg),
+        VData::Struct(fields) => fields_expected(n, style, &ctx.chain, ctx.d9_sample_group_names, fields, out, sg),
     }
 }
 
@@ -573,6 +580,7 @@ pub fn program(roots: &[Node]) -> String {
             &NameCtx {
                 style: None,
                 chain: String::new(),
+                d9_sample_group_names: false,
             },
             &mut exp,
             &mut sg,
@@ -589,7 +597,7 @@ pub fn program(roots: &[Node]) -> String {
             exp_src.join(", "),
             sg_src.join(", ")
         ));
-        main.push_str(&format!("    r{i}::run();\n"));
+        main.push_str(&format!("    c07rt::guard({:?}, r{i}::run);\n", r.type_name));
     }
     main.push_str("}\n");
     src.push_str(&main);
@@ -674,7 +682,7 @@ fn arb_leaf_field() -> impl Strategy<Value = FKind> {
         }),
         2 => (
             arb_style(),
-            prop::collection::vec(prop::option::weighted(0.3, prop::sample::select(vec!["custom_read", "X-1"])), 2..4),
+            prop::collection::vec(prop::option::weighted(0.3, prop::sample::select(vec!["custom_read", "X-1"])), 2..6),
             any::<u8>(),
             any::<bool>()
         )
@@ -724,10 +732,10 @@ fn arb_raw(depth: u32) -> BoxedStrategy<RawNode> {
         arb_cprefix(),
         any::<bool>(),
         prop::collection::vec((arb_leaf_field(), child), 1..5),
-        1u8..4,
+        1u8..6,
         any::<u8>(),
-        prop::collection::vec(0u8..3, 3..4),
-        prop::collection::vec(prop::option::weighted(0.3, prop::sample::select(vec!["custom_variant", "V-2"]).prop_map(|s| s.to_string())), 3..4),
+        prop::collection::vec(0u8..3, 5..6),
+        prop::collection::vec(prop::option::weighted(0.3, prop::sample::select(vec!["custom_variant", "V-2"]).prop_map(|s| s.to_string())), 5..6),
         prop::option::weighted(
             0.6,
             (any::<bool>(), prop::sample::select(vec!["op", "OpName", "request_kind", "K2x"]).prop_map(|s| s.to_string()), any::<bool>()),
